@@ -361,7 +361,12 @@ def check_key_recipe(prog, rep, rule, en, reader_key):
     for st in writes:
         guard = False
         for t, pol in q.conds(st.pc):
-            if t[0] == "bin" and t[2][0] == "call" and last(t[2][1]) == "len" and "get_canonical_and_renaming" in pt(t[2]) and t[3][0] == "lit":
+            arg = terms.strip_iter_adapters(t[2][2][0]) if t[0] == "bin" and t[2][0] == "call" and last(t[2][1]) in ("len", "#len") and len(t[2][2]) == 1 else None
+            while arg is not None and arg[0] == "call" and isinstance(arg[1], str) and last(arg[1]) in ("clone", "keys", "values", "iter") and len(arg[2]) == 1:
+                arg = arg[2][0]
+            # the counted collection is the renaming itself (all variables of the sub-formula), not something derived from it
+            is_ren = arg is not None and arg[0] == "tproj" and arg[2] == 1 and arg[1][0] == "call" and last(arg[1][1]) == "get_canonical_and_renaming"
+            if is_ren and t[3][0] == "lit":
                 v = t[3][1]
                 if pol and ((t[1] == "<=" and v <= 1) or (t[1] == "<" and v <= 2) or (t[1] == "==" and v <= 1)):
                     guard = True
